@@ -157,6 +157,12 @@ pub struct MCOptimiser {
 impl MCOptimiser {
     #[inline]
     fn energy_surface(&self, new: f64, old: f64, kt: f64) -> f64 {
+        // Without a temperature no worse move is accepted. The zero can carry either sign once it
+        // has been multiplied by a negative cooling factor, and dividing by -0. turns a worse
+        // score into an acceptance probability of 1.
+        if kt == 0. {
+            return if new >= old { 1. } else { 0. };
+        }
         f64::min(f64::exp((new - old) / kt), 1.)
     }
 
